@@ -117,10 +117,21 @@ impl ReadGlobalIndex for MockIndex {}
 fn c11_reuse_only_if_all_chunks_indexed() {
     let size: u64 = kani::any();
     let mtime = any_ts();
-    let p = node("a", NodeType::File, size, mtime, None, 0, Some(vec![did(1), did(2)]));
+    // metadata that is_parent does NOT compare differs freely between the parent's node and the current source
+    let (p_mode, c_mode): (Option<u32>, Option<u32>) = (kani::any(), kani::any());
+    let (p_uid, c_uid): (Option<u32>, Option<u32>) = (kani::any(), kani::any());
+    let (p_ctime, c_ctime) = (any_ts(), any_ts());
+    let (p_links, c_links): (u64, u64) = (kani::any(), kani::any());
+    let mut p = node("a", NodeType::File, size, mtime, p_ctime, 0, Some(vec![did(1), did(2)]));
+    p.meta.mode = p_mode;
+    p.meta.uid = p_uid;
+    p.meta.links = p_links;
     let tree = Tree { nodes: vec![p] };
     let mut parent = Parent { tree_ids: Vec::new(), trees: vec![(tree, 0)], stack: Vec::new(), ignore_ctime: true, ignore_inode: false };
-    let n = node("a", NodeType::File, size, mtime, None, 0, None);
+    let mut n = node("a", NodeType::File, size, mtime, c_ctime, 0, None);
+    n.meta.mode = c_mode;
+    n.meta.uid = c_uid;
+    n.meta.links = c_links;
     let index = MockIndex { has1: kani::any(), has2: kani::any() };
     let be = MockDecryptFull::new(0, Arc::new(Log::new()));
     let r = parent.process(&be, &index, TreeType::<(), OsString>::Other((PathBuf::new(), n, ())));
@@ -128,6 +139,10 @@ fn c11_reuse_only_if_all_chunks_indexed() {
         Ok(TreeType::Other((_, out, ((), res)))) => {
             let reused = matches!(res, ParentResult::Matched(()));
             assert!(reused == (index.has1 && index.has2), "reuse iff every chunk of the parent file is still indexed");
+            // "same tree as a backup that reads every file": whatever is reused, the node carries the CURRENT metadata
+            assert!(out.meta.mode == c_mode && out.meta.uid == c_uid && out.meta.links == c_links && out.meta.ctime == c_ctime
+                    && out.meta.size == size && out.meta.mtime == mtime && out.node_type == NodeType::File,
+                    "only the content list is taken from the parent; every metadata field is the current source's");
             if reused {
                 assert!(out.content.as_ref().map(Vec::len) == Some(2));
             } else {
@@ -139,5 +154,6 @@ fn c11_reuse_only_if_all_chunks_indexed() {
     }
     kani::cover!(index.has1 && index.has2);
     kani::cover!(index.has1 && !index.has2);
+    kani::cover!(index.has1 && index.has2 && p_mode != c_mode);
     core::mem::forget(parent);
 }
